@@ -458,3 +458,25 @@ M('C09', '_Integral sums over another index', 'sample.py', "        return evalu
 M('C09', 'benign: rename ielem1/ielem2 consistently is not recognised', 'sample.py', "        return evaluable.einsum('A,B->AB', weights1, weights2)", "        return evaluable.einsum('A,B->AB', weights1, weights2)  # outer product", expect='silent')
 
 M('C18', 'revert F11: Arnoldi without __nutils_hash__', 'solver.py', "    @property\n    def __nutils_hash__(self):\n        return types.nutils_hash(('Arnoldi', self.maxiter, self.linargs))\n\n", "", rule='R18.7')
+
+# ---------------------------------------------------------------- rules added after the first seeds
+M('C01', 'Choose._multiply compares selector shapes only', 'evaluable.py', "        if isinstance(other, Choose) and self.index == other.index:", "        if isinstance(other, Choose) and self.index.shape == other.index.shape:", rule='R01.5')
+M('C01', 'Inflate._add ignores the dofmap', 'evaluable.py', "        if isinstance(other, Inflate) and self.dofmap == other.dofmap:", "        if isinstance(other, Inflate) and self.length == other.length:", rule='R01.5')
+M('C01', 'LoopSum._multiply captures the loop index', 'evaluable.py', "        if self.index not in other.arguments:\n            return loop_sum(self.func * other, self.index)", "        return loop_sum(self.func * other, self.index)", rule='R01.5')
+M('C01', 'benign: guard operands swapped', 'evaluable.py', "        if isinstance(other, Choose) and self.index == other.index:", "        if isinstance(other, Choose) and other.index == self.index:", expect='silent')
+M('C04', 'Power: terms returned by case split', 'evaluable.py',
+  "        return einsum('A,A,AB->AB', self.power, power(self.func, self.power - astype(1, self.power.dtype)), derivative(self.func, var, seen)) \\\n            + einsum('A,A,AB->AB', ln(self.func), self, derivative(self.power, var, seen))",
+  "        if var in self.power.arguments:\n            return einsum('A,A,AB->AB', ln(self.func), self, derivative(self.power, var, seen))\n        return einsum('A,A,AB->AB', self.power, power(self.func, self.power - astype(1, self.power.dtype)), derivative(self.func, var, seen))", rule='R04.2')
+M('C04', 'Custom derivative overwrites its accumulator', 'function.py', "            result += (epd * eda).sum(range(self.ndim, self.ndim + arg.ndim - self.points_dim))", "            result = (epd * eda).sum(range(self.ndim, self.ndim + arg.ndim - self.points_dim))", rule='R04.5')
+M('C14', 'project overwrites prescribed values', 'topology.py', "                constrain[~constrain.where & N] = 0", "                constrain[N] = 0", rule='R14.7')
+M('C14', 'submatrix cache compares columns with cached rows', 'matrix/_base.py', "(cols != self._cached_cols).any()", "(cols != self._cached_rows).any()", rule='R14.6')
+M('C02', 'dependency edge recorded only on a cache miss', 'evaluable.py',
+  "        self._evaluable_deps.setdefault(self._origin, util.IDSet()).add(evaluable)\n        if (out := self._compiled_cache.get(evaluable)) is None:\n",
+  "        if (out := self._compiled_cache.get(evaluable)) is None:\n            self._evaluable_deps.setdefault(self._origin, util.IDSet()).add(evaluable)\n", rule='R02.9')
+M('C02', 'shared allocation only for block (0,)', 'evaluable.py', "        if self._parallel and len(out_block_id) == 1:", "        if self._parallel and out_block_id == (0,):", rule='R02.8')
+M('C03', 'Loop.dependencies drops the length', 'evaluable.py', "        return self.length, *self.init_args, *self.body_args", "        return *self.init_args, *self.body_args", rule='R03.3')
+M('C06', 'Loop.dependencies drops the length (metadata)', 'evaluable.py', "        return self.length, *self.init_args, *self.body_args", "        return *self.init_args, *self.body_args", rule='R06.2')
+M('C03', 'argument shape validated on the first run only', 'evaluable.py', "        block.if_(_pyast.BinOp(shape, '!=', out.get_attr('shape'))).raise_(", "        block.if_(_pyast.Variable('first_run')).if_(_pyast.BinOp(shape, '!=', out.get_attr('shape'))).raise_(", rule='R03.4')
+M('C19', 'shortcut continue skips the summed-index union', 'expression_v2.py',
+  "        for iterm, (negate, s_term, (term, term_shape, term_indices, term_summed_indices)) in enumerate(unaligned[1:], 2):\n            if term_indices != indices:",
+  "        for iterm, (negate, s_term, (term, term_shape, term_indices, term_summed_indices)) in enumerate(unaligned[1:], 2):\n            if term_indices == indices and term_shape == shape:\n                aligned.append((negate, term))\n                continue\n            if term_indices != indices:", rule='R19.2')
